@@ -112,7 +112,7 @@ Section Cx.
     cx_one_point (flatten t1) (flatten t2) ds = Ok ((o1, o2), ds') ->
     cx_post top1 top2 t1 t2 o1 o2.
   Proof.
-    intros Ht1 Ht2 Hobj H. unfold cx_one_point in H.
+    intros Ht1 Ht2 Hobj H. unfold cx_one_point, cx_one_point_with in H.
     assert (Same : cx_post top1 top2 t1 t2 (flatten t1) (flatten t2)).
     { exists t1, t2. repeat split; auto. }
     destruct ((length (flatten t1) <? 2)%nat || (length (flatten t2) <? 2)%nat).
@@ -146,7 +146,7 @@ Section Cx.
     cx_leaf_biased pn pd (flatten t1) (flatten t2) ds = Ok ((o1, o2), ds') ->
     cx_post top1 top2 t1 t2 o1 o2.
   Proof.
-    intros Ht1 Ht2 H. unfold cx_leaf_biased in H.
+    intros Ht1 Ht2 H. unfold cx_leaf_biased, cx_leaf_biased_with in H.
     assert (Same : cx_post top1 top2 t1 t2 (flatten t1) (flatten t2)).
     { exists t1, t2. repeat split; auto. }
     destruct ((length (flatten t1) <? 2)%nat || (length (flatten t2) <? 2)%nat).
